@@ -90,7 +90,7 @@ var bigCount = map[string]bool{"i16max": true, "u16max": true, "u16over": true, 
 	"c_time": true, "d_lit": true, "ts_epoch": true, "t_max": true, "t_over": true, "x_long": true, "x_f0288cbc": true, "x_e282": true, "uuid_bin": true, "ip6bin": true, "g_raw": true, "g_wkb": true, "x_ff": false,
 	"col_c_si": true, "col_c_i": true, "col_c_iu": true, "col_c_bi": true, "col_c_bu": true, "col_c_dec": true, "col_c_dec65": true, "col_c_f": true, "col_c_d": true, "col_c_date": true, "col_c_dt": true, "col_c_ts": true,
 	"col_c_time": true, "col_c_vb": true, "col_c_blob": true, "col_c_bin": true, "col_c_year": false, "d_1000": true, "d_0001": false, "d_feb30": true, "ts_2038": true, "d_1969": true, "d_junk": true, "c_year": false,
-	"j_bignum": true, "castchar_fffe": true, "hexnum": false, "sysvar": false, "u8_e282": true, "s_repeat64k": false}
+	"j_bignum": true, "bin_abc": true, "bin_conv": true, "l1_mix": false, "castchar_fffe": true, "hexnum": false, "sysvar": false, "u8_e282": true, "s_repeat64k": false}
 
 func classAllowed(fn string, pos int, c class) bool {
 	if fn == "sleep" || (fn == "get_lock" && pos == 1) {
